@@ -657,11 +657,9 @@ fn node_to_user_coordinates(
                 cache,
             );
         }
-        Node::Image(ref mut image) => {
-            if let ImageKind::SVG(ref mut tree) = image.kind {
-                update_paint_servers(&mut tree.root, context_transform, context_bbox, None, cache);
-            }
-        }
+        // A nested SVG is a finished tree: its paint servers were already resolved
+        // when it was loaded (with its own context elements and its own cache).
+        Node::Image(_) => {}
         Node::Text(ref mut text) => {
             // By the SVG spec, `tspan` doesn't have a bbox and uses the parent `text` bbox.
             // Therefore we have to use text's bbox when converting tspan and flatted text
